@@ -11,3 +11,5 @@ OBLIGATIONS = [
     ob('C07.alias', 'h_c07_alias', 'fpu', [()], ['spherical box test is the disjunction over the two longitude aliases', 'end'], 'all doubles (products uninterpreted)'),
     ob('C07.extend', 'h_c07_extend', 'real', [()], ['extend moves both corners outwards by the amount', 'end'], 'all finite corners and amounts', native=True),
 ] + C07b.bounds_obs('C07.bounds', C06.TUS[1:]) + C06.CUT_OBS + [dict(o, id=o['id'].replace('C12.sections', 'C07.bounds.sections')) for o in __import__('C12').OBLIGATIONS if o['id'].startswith('C12.sections')]
+# the global depth guards that parse_entries derives from the depth tables (pre-test before the depth surfaces are evaluated): same obligation as C11.guard
+OBLIGATIONS = OBLIGATIONS + [dict(o, id='C07.depthguard') for o in __import__('C11').OBLIGATIONS if o['id'] == 'C11.guard']
